@@ -6,7 +6,12 @@
   M3  Trace_Markup judges: those documents, ALL raw strings up to length L over the quantifier's
       alphabet (render + escape clause + MarkupError clause), the embedded-escape clause (fixed
       contexts x all strings, and random documents from trees of nested / overlapping tags with
-      escaped leaves up to 200 characters)."""
+      escaped leaves up to 200 characters).
+Every record carries the options of the call (OPT): entry point (rich.markup.render, Text.from_markup,
+Console.render_str, Console.print), emoji flag, base style (style=...); the spec knows what they mean
+(BaseSty, HasEmoji).  Besides the random documents there are hand-listed boundary documents / raw strings
+(spellings whose canonical name differs, colour syntaxes, runs of backslashes, emoji codes and near-misses,
+wide / combining characters, deep nesting, long text) - see boundary_docs() / BOUNDARY_STRINGS."""
 import io
 import itertools
 import os
@@ -18,13 +23,58 @@ from engine.harness import Check, cps
 
 ALPHABET = "[]\\/=#ab1 \n:"            # the quantifier's alphabet (12 symbols)
 SAFE = "ab 1:=#/\nxyz"                 # text that needs no escaping
+WIDE = "\u6f22\u5b57\U0001f600\u00e9\u0301\u00f1\u3000\u200b"   # wide, astral, combining, non-ASCII blank, zero width
+EXTRA = "ABZ(),;&@.-_!?*'\"%~" + WIDE   # beyond the quantifier's minimum alphabet ("an alphabet containing ...")
+EMOJI_BITS = [":a:", ":smiley:", ":zzz:", ":a b:", "::", ":A:", ":no_such_code:", ":a", "b:", ":ab:", ":x:y:",
+              ":a\u3000b:", ":thumbs_up:", ": a:", ":1:", ":Smiley:"]      # codes and near-misses
 # fixed tag vocabulary of Markup.tla (id -> markup text); TagKey / TagSty live in the spec
 TAG_TEXT = {1: "red", 2: "blue", 3: "bold", 4: "b", 5: "on white", 6: "bold red", 7: "link=U?q=1",
-            8: "link=V;x=2&y", 9: "not bold", 10: "zz"}
+            8: "link=V;x=2&y", 9: "not bold", 10: "zz",
+            # spellings whose canonical name differs from the spelling / other ways of writing a style
+            11: "bOLD", 12: "b ", 13: "bold  red", 14: "#ff0000", 15: "rgb(1,2,3)", 16: "color(5)", 17: "on red",
+            18: "i", 19: "italic", 20: "link=x:a:y", 21: "lINK=U?q=1", 22: "click=f", 23: "red on white", 24: "zZ "}
 TAG_KEY = {1: "red", 2: "blue", 3: "bold", 4: "bold", 5: "on white", 6: "bold red", 7: "link",
-           8: "link", 9: "not bold", 10: "zz"}           # only used to bias generators
-CLOSE_SPELL = {"red": ["red"], "blue": ["blue"], "bold": ["bold", "b"], "on white": ["on white"],
-               "bold red": ["bold red", "red bold"], "link": ["link"], "not bold": ["not bold"], "zz": ["zz"]}
+           8: "link", 9: "not bold", 10: "zz", 11: "bold", 12: "bold", 13: "bold red", 14: "#ff0000",
+           15: "rgb(1,2,3)", 16: "color(5)", 17: "on red", 18: "italic", 19: "italic", 20: "link", 21: "link",
+           22: "click", 23: "red on white", 24: "zz"}           # only used to bias generators
+OLD_IDS = list(range(1, 11))
+# ways of writing the closing tag of a name (index = token field sp); [0] is the plain spelling
+CLOSE_SPELL = {"red": ["red", "RED", "red "], "blue": ["blue", " blue"], "bold": ["bold", "b", "BOLD", " b ", "bOLD"],
+               "on white": ["on white", "on  white", "ON WHITE"],
+               "bold red": ["bold red", "red bold", "bold  red", " RED  bold "],
+               "link": ["link", "LINK", " link "], "not bold": ["not bold", "not b", "NOT  bold"],
+               "zz": ["zz", "ZZ", " zz "], "#ff0000": ["#ff0000", "#FF0000"], "rgb(1,2,3)": ["rgb(1,2,3)", "RGB(1,2,3)"],
+               "color(5)": ["color(5)", "COLOR(5)"], "on red": ["on red", "on  RED"], "italic": ["italic", "i", "I", " italic"],
+               "click": ["click", "CLICK"], "red on white": ["red on white", "RED  on white"]}
+OLD_KEYS = ["red", "blue", "bold", "on white", "bold red", "link", "not bold", "zz"]
+# base styles (spec: BaseSty); ("obj", kwargs) is handed over as a Style instance
+BASES = {0: None, 1: "blue", 2: "bold", 3: "not bold on white", 4: "bold red link U?q=1",
+         5: ("obj", dict(color="blue", italic=True))}
+DEFAULT_OPT = dict(entry="render", emoji=0, base=0, v=0)
+ENTRIES = ["render", "from_markup", "render_str", "print"]
+
+
+def rand_opt(rng, p_default=0.4):
+    """options of one call: entry point x emoji x base style x sub-variant v (bit 0: base handed over as a
+    Style instance; bit 1: rely on the default / the console's setting instead of an explicit emoji argument)."""
+    if rng.random() < p_default:
+        return DEFAULT_OPT
+    return dict(entry=rng.choice(["render", "render", "from_markup", "render_str", "render_str", "print"]),
+                emoji=rng.randrange(2), base=rng.choice([0, 0, 0, 1, 2, 3, 4, 5]), v=rng.randrange(4))
+
+
+# the variant calls used for hand-listed cases and, in turn, for the exhaustive families
+VARIANT_OPTS = [dict(entry="render", emoji=1, base=0, v=2), dict(entry="render", emoji=0, base=1, v=0),
+                dict(entry="from_markup", emoji=1, base=3, v=1), dict(entry="from_markup", emoji=0, base=0, v=2),
+                dict(entry="render_str", emoji=0, base=4, v=0), dict(entry="render_str", emoji=1, base=2, v=3),
+                dict(entry="print", emoji=1, base=5, v=0), dict(entry="print", emoji=0, base=0, v=2),
+                dict(entry="render", emoji=1, base=4, v=1)]
+
+
+def opt_tag(opt):
+    bits = ([opt["entry"]] if opt["entry"] != "render" else []) + (["emoji"] if opt["emoji"] else []) + (["base"] if opt["base"] else [])
+    return "+".join(bits)
+
 
 GEN_CFG = """CONSTANTS
   OpenIds = {%s}
@@ -70,12 +120,21 @@ class Env:
     def __init__(self):
         from rich.console import Console
         from rich.style import Style
+        from rich.text import Text
         from rich import markup as mk
         from rich.errors import MarkupError
+        from rich._emoji_codes import EMOJI
         self.console = Console(file=io.StringIO(), width=80)
-        self.Style, self.mk, self.MarkupError = Style, mk, MarkupError
+        self.Style, self.mk, self.MarkupError, self.Text = Style, mk, MarkupError, Text
+        # consoles whose own emoji setting is off / on (render_str, print)
+        self.cons = [Console(file=io.StringIO(), width=80, emoji=bool(e), markup=True, highlight=False) for e in (0, 1)]
+        self.pcons = [Console(file=io.StringIO(), width=100000, emoji=bool(e), markup=True, highlight=False, record=True,
+                              color_system="truecolor", force_terminal=True, legacy_windows=False) for e in (0, 1)]
+        self.emoji_names = [(n, frozenset(n)) for n in EMOJI]
         self._sty = {}
         self._tag = {}
+        self._emo = {}
+        self._base = {}
 
     def project(self, style):
         """Style -> Code(<<fg, bg, bold, link, other>>), digits 0 = unset, 9 = something else."""
@@ -83,12 +142,15 @@ class Env:
         hit = self._sty.get(k)
         if hit is not None and hit[0] is style:
             return hit[1]
-        col = style.color.name if style.color is not None else None
-        bg = style.bgcolor.name if style.bgcolor is not None else None
-        fg_i = {None: 0, "red": 1, "blue": 2}.get(col, 9)
-        bg_i = {None: 0, "white": 1}.get(bg, 9)
+
+        def colour(c):
+            return None if c is None else (c.number, tuple(c.triplet) if c.triplet is not None else None)
+        # red, blue, #ff0000, color(5), rgb(1,2,3)  /  on white, on red
+        fg_i = {None: 0, (1, None): 1, (4, None): 2, (None, (255, 0, 0)): 3, (5, None): 4, (None, (1, 2, 3)): 5}.get(colour(style.color), 9)
+        bg_i = {None: 0, (7, None): 1, (1, None): 2}.get(colour(style.bgcolor), 9)
         bold_i = {None: 0, True: 1, False: 2}[style.bold]
-        link_i = {None: 0, "U?q=1": 1, "V;x=2&y": 2}.get(style.link, 9)     # targets with = ; & must arrive whole
+        # targets with = ; & : must arrive whole
+        link_i = {None: 0, "U?q=1": 1, "V;x=2&y": 2, "x:a:y": 3}.get(style.link, 9)
         other = 0
         for a in ("dim", "italic", "underline", "blink", "blink2", "reverse", "conceal", "strike",
                   "underline2", "frame", "encircle", "overline"):
@@ -99,21 +161,86 @@ class Env:
             self._sty[k] = (style, p)
         return p
 
-    def observe(self, markup):
-        """(err, plain code points, per-character projected effective style) of the real render."""
+    def base_arg(self, base, as_object):
+        b = BASES[base]
+        if b is None:
+            return None
+        if isinstance(b, tuple):
+            return self.Style(**b[1])
+        if as_object:
+            hit = self._base.get(base)
+            if hit is None:
+                hit = self._base[base] = self.Style.parse(b)
+            return hit
+        return b
+
+    def call(self, markup, opt):
+        """the real call -> per-character (code point, projected style) lists"""
+        entry, emoji, v = opt["entry"], bool(opt["emoji"]), opt.get("v", 0)
+        base = self.base_arg(opt["base"], v & 1)
+        kw = {} if base is None else {"style": base}
+        null = self.project(self.Style.null())
+        if entry == "print":
+            con = self.pcons[1 if emoji else 0] if v & 2 else self.pcons[0 if emoji else 1]
+            del con._record_buffer[:]
+            try:
+                if v & 2:      # the console's own emoji setting
+                    con.print(markup, end="", soft_wrap=True, **kw)
+                else:          # an explicit argument against the console's setting
+                    con.print(markup, end="", soft_wrap=True, emoji=emoji, markup=True, highlight=False, **kw)
+                segs = [seg for seg in con._record_buffer if not seg.is_control]
+            finally:
+                del con._record_buffer[:]
+                con.file.seek(0)
+                con.file.truncate()
+            plain, sty = [], []
+            for seg in segs:
+                pr = self.project(seg.style) if seg.style is not None else null
+                for ch in seg.text:
+                    plain.append(ord(ch))
+                    sty.append(-1 if ch == "\n" else pr)      # a line end of printed output shows no tag style
+            return plain, sty
+        if entry == "render":
+            if v & 2 and emoji:
+                text = self.mk.render(markup, **kw)            # emoji=True is the default
+            else:
+                text = self.mk.render(markup, emoji=emoji, **kw)
+        elif entry == "from_markup":
+            text = self.Text.from_markup(markup, emoji=emoji, justify=[None, "left", "center", "full"][v & 3],
+                                         overflow=[None, "fold", "crop", "ellipsis"][v & 3], **kw)
+        else:
+            if v & 2:
+                text = self.cons[1 if emoji else 0].render_str(markup, **kw)
+            else:
+                text = self.cons[0 if emoji else 1].render_str(markup, emoji=emoji, markup=True, highlight=False, **kw)
+        sty = []
+        for seg in text.render(self.console):
+            pr = self.project(seg.style) if seg.style is not None else null
+            sty.extend([pr] * len(seg.text))
+        return cps(text.plain), sty
+
+    def observe(self, markup, opt=DEFAULT_OPT):
+        """(err, plain code points, per-character projected effective style) of the real call."""
         try:
-            text = self.mk.render(markup, emoji=False)
-            plain = text.plain
-            sty = []
-            null = self.project(self.Style.null())
-            for seg in text.render(self.console):
-                p = self.project(seg.style) if seg.style is not None else null
-                sty.extend([p] * len(seg.text))
-            return "none", cps(plain), sty
+            plain, sty = self.call(markup, opt)
+            return "none", plain, sty
         except self.MarkupError:
             return "MarkupError", [], []
         except Exception as e:  # a crash inside Rich is data for TLC
             return "exc:" + type(e).__name__, [], []
+
+    def emo(self, markup, opt):
+        """emoji names (taken as given from the tree under test) written with the input's characters; TLC decides
+        whether the text contains one (HasEmoji).  [] when the call does not replace emoji codes."""
+        if not opt["emoji"] or markup.count(":") < 2:
+            return []
+        key = frozenset(markup.lower())
+        hit = self._emo.get(key)
+        if hit is None:
+            hit = [cps(n) for n, chars in self.emoji_names if chars <= key]
+            if len(self._emo) < 20000:
+                self._emo[key] = hit
+        return hit
 
     def escape(self, s):
         try:
@@ -184,22 +311,24 @@ def emit(toks, env):
     return "".join(parts)
 
 
-def doc_record(toks, env):
+def doc_record(toks, env, opt=DEFAULT_OPT):
     markup = emit(toks, env)
-    err, plain, sty = env.observe(markup)
-    return dict(kind="doc", toks=toks, cp=cps(markup), err=err, plain=plain, sty=sty), markup
+    err, plain, sty = env.observe(markup, opt)
+    return dict(kind="doc", toks=toks, cp=cps(markup), err=err, plain=plain, sty=sty,
+                base=opt["base"], emoji=opt["emoji"], emo=env.emo(markup, opt), opt=opt_tag(opt)), markup
 
 
-def str_record(s, env):
-    err, plain, sty = env.observe(s)
+def str_record(s, env, opt=DEFAULT_OPT):
+    err, plain, sty = env.observe(s, opt)
     eerr, es = env.escape(s)
     if eerr == "none":
-        eerr, eplain, esty = env.observe(es)
+        eerr, eplain, esty = env.observe(es, opt)
     else:
         eplain, esty = [], []
     tags = [env.tag_entry(c) for c in candidates(s)] if "[" in s else []
     return dict(kind="str", cp=cps(s), tags=tags, err=err, plain=plain, sty=sty,
-                esc=cps(es), eerr=eerr, eplain=eplain, esty=esty)
+                esc=cps(es), eerr=eerr, eplain=eplain, esty=esty,
+                base=opt["base"], emoji=opt["emoji"], emo=env.emo(s, opt), opt=opt_tag(opt))
 
 
 def norm_tok(t, rng=None):
@@ -207,7 +336,7 @@ def norm_tok(t, rng=None):
     if t["k"] == "text":
         t.setdefault("e", 0)
     if t["k"] == "close" and "sp" not in t:
-        t["sp"] = rng.randrange(2) if rng else 0
+        t["sp"] = rng.randrange(len(CLOSE_SPELL[t["key"]])) if rng else 0
     return t
 
 
@@ -221,32 +350,47 @@ def side_ok(s):
     return all("]" in s[i + 1:] for i, ch in enumerate(s) if ch == "[")
 
 
-def hostile_leaf(rng, maxlen):
+def hostile_leaf(rng, maxlen, extra=False):
+    alpha = ALPHABET + "[]\\[/" + (EXTRA if extra else "")
     for _ in range(30):
         n = rng.randint(1, maxlen)
-        s = "".join(rng.choice(ALPHABET + "[]\\[/") for _ in range(n))
+        s = "".join(rng.choice(alpha) for _ in range(n))
+        if extra and rng.random() < 0.3:       # a run of backslashes in front of something tag-like / not tag-like
+            s += "\\" * rng.randint(1, 5) + rng.choice(["[a]", "[/]", "[/b]", "[#]", "[1]", "[A]", "a", "]", "[=x]", "[b=1]"])
         if side_ok(s):
             return s
     return "[/a]"
 
 
-def random_doc(rng, maxlen=200):
+def plain_text(rng, rich_alpha):
+    """text written into the markup as it is (e = 0): no '[', never ends in a backslash"""
+    if rich_alpha and rng.random() < 0.25:
+        return rng.choice(EMOJI_BITS)
+    alpha = SAFE + (EXTRA + "\\\\]" if rich_alpha else "")
+    s = "".join(rng.choice(alpha) for _ in range(rng.randint(1, 6)))
+    return s + "z" if s.endswith("\\") else s
+
+
+def random_doc(rng, maxlen=200, ids=None, rich_alpha=None, want=None):
     toks, stack, length = [], [], 0
-    want = rng.randint(2, 40)
+    want = want or rng.randint(2, 40)
+    if rich_alpha is None:
+        rich_alpha = rng.random() < 0.5          # half of the documents stay inside the 12-symbol alphabet
+    ids = ids or ([1, 1, 2, 2, 3, 4, 5, 6, 7, 8, 9, 10] + (list(range(11, 25)) if rng.random() < 0.6 else []))
     p_err = rng.choice([0.0, 0.0, 0.02, 0.08])
     while len(toks) < want and length < maxlen - 24:
         r = rng.random()
         if r < 0.30:
             if rng.random() < 0.6:
-                s = hostile_leaf(rng, rng.choice([2, 4, 8, 16]))
+                s = hostile_leaf(rng, rng.choice([2, 4, 8, 16]), rich_alpha)
                 toks.append(dict(k="text", s=cps(s), e=1))
                 length += 2 * len(s) + 2
             else:
-                s = "".join(rng.choice(SAFE) for _ in range(rng.randint(1, 6)))
+                s = plain_text(rng, rich_alpha)
                 toks.append(dict(k="text", s=cps(s), e=0))
                 length += len(s)
         elif r < 0.62:
-            i = rng.choice([1, 1, 2, 2, 3, 4, 5, 6, 7, 8, 9, 10])
+            i = rng.choice(ids)
             toks.append(dict(k="open", id=i))
             stack.append(TAG_KEY[i])
             length += len(TAG_TEXT[i]) + 2
@@ -254,7 +398,7 @@ def random_doc(rng, maxlen=200):
             key = stack[-1] if rng.random() < 0.5 else rng.choice(stack)
             idx = len(stack) - 1 - stack[::-1].index(key)
             stack.pop(idx)
-            toks.append(dict(k="close", key=key, sp=rng.randrange(2)))
+            toks.append(dict(k="close", key=key, sp=rng.randrange(len(CLOSE_SPELL[key])) if rng.random() < 0.6 else 0))
             length += len(key) + 3
         elif r < 0.92 and stack:
             stack.pop()
@@ -272,6 +416,147 @@ def random_doc(rng, maxlen=200):
     if not any(t["k"] == "text" for t in toks) or rng.random() < 0.5:
         toks.append(dict(k="text", s=cps("z"), e=0))
     return toks
+
+
+def deep_doc(rng, depth):
+    """more than ten tags open at once, closed by name / by [/] / left open, text at every level"""
+    toks, stack = [], []
+    for _ in range(depth):
+        i = rng.choice(list(TAG_TEXT))
+        toks.append(dict(k="open", id=i))
+        stack.append(TAG_KEY[i])
+        if rng.random() < 0.5:
+            toks.append(dict(k="text", s=cps(rng.choice("xyz")), e=0))
+    toks.append(dict(k="text", s=cps("m"), e=0))
+    while stack and rng.random() < 0.9:
+        if rng.random() < 0.5:
+            stack.pop()
+            toks.append(dict(k="pop"))
+        else:
+            key = rng.choice(stack)
+            stack.pop(len(stack) - 1 - stack[::-1].index(key))
+            toks.append(dict(k="close", key=key, sp=rng.randrange(len(CLOSE_SPELL[key]))))
+        if rng.random() < 0.6:
+            toks.append(dict(k="text", s=cps(rng.choice("xyz")), e=0))
+    return toks
+
+
+def O(i):
+    return dict(k="open", id=i)
+
+
+def C(key, sp=0):
+    return dict(k="close", key=key, sp=sp)
+
+
+def T(s, e=0):
+    return dict(k="text", s=cps(s), e=e)
+
+
+P = dict(k="pop")
+
+
+def boundary_docs(rng, long_lengths):
+    """hand-listed documents for corners a random document rarely reaches"""
+    docs = []
+    # every spelling of every open tag x every spelling of its closing tag, tag at position 0 and at the end
+    for i, key in sorted(TAG_KEY.items()):
+        for sp in range(len(CLOSE_SPELL[key])):
+            docs.append([O(i), T("x"), C(key, sp), T("y")])
+            docs.append([T("x"), O(i), C(key, sp)])                       # empty region at the very end
+        docs.append([O(i), T("x"), P, T("y")])
+        docs.append([O(i), T("x")])                                       # runs to the end
+        docs.append([T("w"), O(i), T("x\ny"), O(1), T("z"), C(key), T("v")])   # crossing tags over a line end
+    # the same name open twice with different effect: the close takes the most recent one
+    for a, b in [(7, 8), (8, 7), (7, 20), (20, 21), (3, 9), (9, 3), (6, 13), (14, 14), (18, 19), (10, 24), (22, 22)]:
+        key = TAG_KEY[b]
+        if TAG_KEY[a] == key:
+            for sp in range(len(CLOSE_SPELL[key])):
+                docs.append([O(a), T("x"), O(b), T("y"), C(key, sp), T("z"), C(key), T("w")])
+                docs.append([O(a), O(2), O(b), T("y"), C(key, sp), T("z"), P, T("w"), C(key), T("v")])
+    # a later tag wins field by field, also over a tag with several fields
+    for a in (1, 6, 14, 15, 16, 23):
+        for b in (1, 2, 6, 14, 15, 16, 23):
+            docs.append([O(a), T("x"), O(b), T("y"), C(TAG_KEY[b]), T("z")])
+            docs.append([O(a), O(b), T("y"), C(TAG_KEY[a]), T("z")])
+    # the same style on adjacent regions, empty regions
+    for i in (3, 4, 7, 14, 18):
+        docs.append([O(i), T("x"), C(TAG_KEY[i]), O(i), T("y"), C(TAG_KEY[i]), T("z")])
+        docs.append([O(i), C(TAG_KEY[i]), O(i), P, T("z"), O(i)])
+    # nothing to close: by name with other tags open, [/] on the empty stack, a second close of a closed tag
+    for i in (1, 3, 7, 11, 14, 18, 22, 24):
+        key = TAG_KEY[i]
+        others = [j for j in (2, 5, 9, 17) if TAG_KEY[j] != key]
+        for sp in range(len(CLOSE_SPELL[key])):
+            docs.append([O(others[0]), T("x"), O(others[1]), C(key, sp), T("y")])
+            docs.append([O(i), T("x"), C(key), C(key, sp)])
+        docs.append([O(i), P, P])
+    docs.append([T("x"), P])
+    docs.append([P])
+    # emoji codes and near-misses: in plain text, split by a tag, next to tags, inside a link target
+    for bit in EMOJI_BITS:
+        docs.append([T(bit)])
+        docs.append([T("x "), O(3), T(bit), C("bold"), T(" y")])
+        docs.append([T(bit[:2]), O(1), T(bit[2:]), P])
+        docs.append([O(20), T(bit), C("link"), T(bit, 1)])
+    docs.append([O(20), T("x"), C("link", 2), T(":a"), O(4), T(":")])
+    # wide / combining / zero-width characters between and around tags
+    for w in WIDE:
+        docs.append([T(w), O(3), T(w + "a" + w), C("bold", 1), T(w)])
+        docs.append([O(7), T(w * 3, 1), O(1), T(w), C("link"), T("a" + w)])
+    # runs of backslashes in front of a non-tag, inside plain text
+    for k in range(1, 6):
+        docs.append([O(1), T("a" + "\\" * k + "b"), P, T("\\" * k + "]c")])
+        docs.append([T("\\" * k + "[a]", 1), O(3), T("\\" * k + "[/b]", 1), C("bold")])
+        docs.append([T("\\" * k + "[A]", 1), O(3), T("\\" * k + "1", 1), C("bold")])
+    # more than ten tags open at once
+    for depth in (11, 12, 16, 24, 40):
+        for _ in range(4):
+            docs.append(deep_doc(rng, depth))
+    # very long text between tags
+    for n in long_lengths:
+        body = "".join(rng.choice(SAFE.replace(":", "") + WIDE) for _ in range(n))     # no ':' - the emoji=True calls stay in scope
+        docs.append([T("a"), O(6), T(body), O(2), T(body[: n // 3]), C("bold red", 1), T("tail"), P, T("end")])
+        docs.append([O(3), T(body), O(1), T(body), O(7)])                 # tags that run to a far end
+        leaf = "".join(rng.choice("ab]\\ =") for _ in range(n // 2)) + "[a]"
+        docs.append([O(7), T(leaf, 1), C("link"), T(leaf, 1)])
+    return docs
+
+
+# raw strings beyond the exhaustive bound: the style language of their tags is read from the tree under test
+BOUNDARY_STRINGS = [
+    "[Bold]x[/bold]", "[bOLD]x[/BOLD]y", "[b ]x[/ b ]y", "[bold  red]x[/bold red]y", "[bold red]x[/red bold]y", "[/ bold ]",
+    "[ bold]x", "[b]x[/ b]", "[b]x[/b ]", "[b]x[/  ]y", "[b]x[/ ]", "[/ ]", "[b=]x[/b]", "[b=1]x[/b]y",
+    "[link=http://a.b/c?d=e&f=g;h#i]x[/link]y", "[link http://a.b]x[/link http://a.b]y", "[link http://a.b]x[/link]",
+    "[link=a b]x[/link]", "[link=]x[/link]", "[link]x[/link]", "[link=a=b=c]x[/link]y", "[link=a]x[link=b]y[/link]z[/link]w",
+    "[@click=f]x[/]", "[@click=f]x", "[click=f()]x[/click]y", "[zz=1;2]x[/zz]", "[zz]x[/ZZ]y", "[zz y]x[/zz]", "[zz y]x[/zz y]z",
+    "[#ff0000]x[/#ff0000]y", "[#ff0000]x[/#FF0000]y", "[#f00]x[/]", "[#ff00]x", "[#]x", "[#][/#]", "[on red]x[/on red]y",
+    "[on #00ff00]x[/]y", "[not bold]x[/not bold]y", "[not b]x[/not bold]y", "[b][not bold]x[/b]y[/not bold]z",
+    "[rgb(1,2,3)]x[/rgb(1,2,3)]y", "[rgb(1, 2, 3)]x", "[rgb(300,0,0)]x[/]", "[color(5)]x[/color(5)]y", "[color(256)]x[/]",
+    "[color(5)]x[/magenta]", "[default]x[/default]y", "[none]x[/none]", "[bold italic underline red on blue]x[/]y",
+    "[italic bold]x[/bold italic]y", "[i]x[/italic]y[u]z[/underline]", "[s]x[/strike]", "[r]x[/reverse]y",
+    "[red]a[blue]b[/red]c[/blue]d", "[red]a[blue]b[red]c[/red]d[/red]e[/blue]f", "[b][b][b]x[/b]y[/b]z[/b]w", "[b][b]x[/b][/b][/b]",
+    "[b][/b]", "[b][/b][/b]", "[b][i][/b][/i]x", "[b][/]x[/]", "x[/b]", "[/b]x", "[b]x[/i]", "[b]x[/b][/]", "[/][b]", "[b][/][/]",
+    "\\[b]x", "\\\\[b]x", "\\\\\\[b]x", "\\\\\\\\[b]x[/b]", "\\\\\\\\\\[b]x", "x\\", "x\\\\", "\\", "\\\\\\x",
+    "\\\\\\\\1", "\\[1]", "\\\\[1]", "\\[/]", "\\\\[/]", "\\\\\\[/b]", "[b]\\[/b]x[/b]y", "[b]x\\\\[/b]y", "\\[b\\]", "[b\\]x", "[\\b]x",
+    "[", "]", "[[", "]]", "[]", "[/", "[/]", "[=x]", "[=]", "[a", "a]", "[[b]]", "[[b]x[/b]]", "[b]]x[[/b]", "[b[i]x", "[b[]x", "[[]]",
+    "[1]", "[1,2,3]", "['a']", "[a,b]x", "[A]", "[ ]", "[-]", "[_]", "[a\nb]", "[b]x\ny[/b]z", "[b\n]x", "[/\n]", "[link=a\nb]x",
+    "\n", "\n[b]\n[/b]\n", "a:b", "10:30", "#1", "a#b:c=d/e", "[b]#[/b]", "[#b]x", "x=[y]", "a=[b]c[/b]", "[1=2]",
+    ":a:", ":smiley:", "[b]:smiley:[/b]", ":smi[b]ley:", ":a[/]:", "[b]:[/b]a:", ":[b]a[/b]:", "[:a:]", "[b :a:]x", "[link=:a:]x[/link]",
+    "[link=x:smiley:y]z", ":zzz:", ":a b:", "::", ":a", "a:", ":A:", ":Smiley:", "\\[:a:]", "\\[b]:a:\\[/b]", ":a::b:", ":a:b:",
+    "[b]\u6f22\u5b57[/b]\U0001f600", "\u6f22[red]\u6f22[/red]\u6f22", "e\u0301[b]e\u0301[/b]", "[b]\u200b[/b]x", "\u3000[b]\u3000[/b]",
+    "[\u6f22]", "[b\u6f22]x", "[link=\u6f22]x[/link]", "[/\u6f22]", "\\[\u6f22]", "[b]" + "x" * 300 + "[/b]" + "y" * 300,
+    "[repr.number]1[/repr.number]x", "[rule.line]x[/]y", "[repr.str]x[/REPR.STR]y", "[dim]x[/dim][bar.back]y", "[repr.number]x[/repr.str]",
+    "[red]" * 12 + "x" + "[/red]" * 12, "[red]" * 12 + "x" + "[/]" * 13, "".join("[%s]" % t for t in ("b", "i", "u", "s", "red", "on blue", "dim", "blink", "reverse", "link=a", "#010203", "o")) + "x",
+]
+
+
+def random_raw(rng):
+    """a raw string assembled from tag-like and text-like pieces (longer than the exhaustive bound)"""
+    pieces = ["[", "]", "\\", "\\\\", "/", "=", "#", "a", "b", "1", " ", "\n", ":", "[/]", "[b]", "[/b]", "[red]", "[/red]", "[i]",
+              "[B]", "[bOLD]", "[/ b ]", "[link=a=b]", "[/link]", "[#fff]", "[on red]", "[zz]", "[/zz]", "[a b]", "[1]", "[]", "[[",
+              ":a:", ":zz:", "A", "\u6f22", "\u0301", "x", "(", ",", ")", ";", "@", "[=", "[/ ", "[b=", "=x]"]
+    return "".join(rng.choice(pieces) for _ in range(rng.randint(3, 14)))
 
 
 CONTEXTS = [  # (prefix tokens, suffix tokens) of complete markup for the embedded clause
@@ -310,6 +595,8 @@ def judge_batch(chk, recs, keys, label, rejected, counters):
         parts = v.split(" | ")
         bad = False
         for part in parts:
+            if part.startswith("skip:"):
+                counters[part] = counters.get(part, 0) + 1
             if part == "ok" or part.startswith("skip:"):
                 continue
             if part.startswith("ok drift:"):
@@ -318,7 +605,7 @@ def judge_batch(chk, recs, keys, label, rejected, counters):
                 chk.drift_note("%s e.g. %r" % (part, key))
             else:
                 bad = True
-                rejected.append((len(rec["cp"]), _sig(part, rec["kind"]), part, key))
+                rejected.append((len(rec["cp"]), _sig(part, rec["kind"]), part, key, rec.get("opt", "")))
         if bad:
             counters["rejected"] += 1
         elif all(p.startswith("skip:") for p in parts):
@@ -328,7 +615,7 @@ def judge_batch(chk, recs, keys, label, rejected, counters):
     chk.traces += len(recs)
 
 
-def minimise(chk, env, toks, want_sig):
+def minimise(chk, env, toks, want_sig, opt=DEFAULT_OPT):
     """delta debugging on a rejected token document: every round is one TLC batch of candidate
     reductions; keep a candidate that TLC rejects with the same signature."""
     cur = toks
@@ -342,7 +629,7 @@ def minimise(chk, env, toks, want_sig):
         cands = [c for c in cands if c]
         if not cands:
             break
-        recs = [doc_record(c, env)[0] for c in cands]
+        recs = [doc_record(c, env, opt)[0] for c in cands]
         verdicts, st = tlc.judge("Trace_Markup", recs, chunk_min=200)
         chk.add_tlc(st, "M3-minimise")
         chk.traces += len(recs)
@@ -359,14 +646,19 @@ def minimise(chk, env, toks, want_sig):
 def run(chk: Check):
     env = Env()
     rng = chk.rng
-    chk.rule = ("a case is a distinct markup input (token document over the 10-tag vocabulary with its spelling, "
-                "or raw string over the 12-symbol alphabet of the quantifier); non-trivial = contains at least one "
-                "'[' (raw strings) / at least one tag token and one text token (documents)")
+    chk.rule = ("a case is a distinct markup input (token document over the 24-tag vocabulary with its spelling, "
+                "or raw string) together with the options of the call (entry point, emoji, base style); "
+                "non-trivial = contains at least one '[' (raw strings) / at least one tag token and one text token (documents)")
     chk.trusted = ["drivers/c04.py:Env.project (Style -> [fg,bg,bold,link,other] ids)",
-                   "drivers/c04.py:Env.observe (Text.plain + Text.render segments expanded per character)",
+                   "drivers/c04.py:Env.call / observe (Text.plain + Text.render segments expanded per character; for Console.print "
+                   "the recorded segments, a line end's style reported as unobservable)",
+                   "drivers/c04.py:Env.emo (emoji names of the tree under test over the input's characters; TLC decides whether the text contains one)",
                    "drivers/c04.py:Env.tag_entry (style language taken as given: Style.normalize / Console.get_style of the tree under test)",
                    "drivers/c04.py:emit (token document -> markup string; TLC re-lexes the string and reports a mismatch as drift)"]
-    chk.assumptions = ["emoji=False: emoji code replacement is a separate documented feature",
+    chk.assumptions = ["emoji code replacement is a separate documented feature: a call with emoji=True is held to the verbatim "
+                       "clauses exactly when the text (tags removed) contains no :name: that is an emoji name (Markup.tla HasEmoji)",
+                       "a base style (style=...) acts like a tag opened before everything else and never closed",
+                       "complete markup around an embedded escape(s) does not end in a backslash",
                        "closing-tag names are compared modulo Style.normalize (e.g. [/b] closes [bold])",
                        "what a tag is: the documented syntax (RE_TAGS); where the documentation is silent "
                        "('[' inside a tag, tag candidate not closed on its line) a disagreement is DRIFT"]
@@ -382,12 +674,13 @@ def run(chk: Check):
     # ---- replay of one stored case ------------------------------------------------------------
     if chk.replay_only:
         c = chk.replay_only["case"]
+        opt = c.get("opt") or DEFAULT_OPT
         if c["kind"] == "doc":
-            rec, markup = doc_record(c["toks"], env)
-            key = dict(kind="doc", toks=c["toks"], markup=markup)
+            rec, markup = doc_record(c["toks"], env, opt)
+            key = dict(kind="doc", toks=c["toks"], markup=markup, opt=opt)
         else:
-            rec = str_record(c["s"], env)
-            key = dict(kind="str", s=c["s"])
+            rec = str_record(c["s"], env, opt)
+            key = dict(kind="str", s=c["s"], opt=opt)
         chk.case(key, True)
         judge_batch(chk, [rec], [key], "M3", rejected, counters)
         chk.sample(dict(case=key, observed=dict(err=rec["err"], plain=rec["plain"], sty=rec["sty"])))
@@ -412,15 +705,16 @@ def run(chk: Check):
         chk.pick(5, 6), chk.pick(5, 6), chk.pick(6, 7))
 
     # ---- M2: TLC-generated token documents ---------------------------------------------------------
-    all_ids = ",".join(str(i) for i in sorted(TAG_TEXT))
-    all_keys = ",".join('"%s"' % k for k in CLOSE_SPELL)
+    all_ids = ",".join(str(i) for i in OLD_IDS)          # the exhaustive generation stays on the first ten tags
+    all_keys = ",".join('"%s"' % k for k in OLD_KEYS)
     depth = chk.pick(3, 4)
     behs, r2 = tlc.behaviours("MC_Markup", cfg_text=GEN_CFG % (all_ids, all_keys, depth, depth), workers=4)
     chk.add_tlc(r2, "M2")
     if not behs:
         raise tlc.TLCFailure("no token documents generated\n" + r2.out[-1500:])
     sim_depth = chk.pick(8, 10)
-    behs2, r3 = tlc.behaviours("MC_Markup", cfg_text=GEN_CFG % ("1,2,3,4,6,7,8,9", '"red","blue","bold","link"', sim_depth, sim_depth),
+    behs2, r3 = tlc.behaviours("MC_Markup", cfg_text=GEN_CFG % ("1,2,3,4,6,7,8,9,11,13,14,18,20,21,24",
+                                                                   '"red","blue","bold","link","italic","zz","bold red"', sim_depth, sim_depth),
                                simulate="num=%d" % chk.pick(3000, 30000), depth=sim_depth + 2, seed=chk.seed)
     chk.add_tlc(r3, "M2")
     chk.notes["tlc_generated_documents"] = dict(exhaustive_depth=depth, exhaustive=len(behs), simulated=len(behs2))
@@ -431,23 +725,35 @@ def run(chk: Check):
         sig = repr(toks)
         if sig not in seen:
             seen.add(sig)
-            docs.append(toks)
+            docs.append((toks, DEFAULT_OPT))
+            docs.append((toks, rand_opt(rng, 0.0)))
 
     # ---- embedded-escape clause: fixed complete contexts x every string up to Le -----------------
     le = chk.pick(3, 4)
-    n_emb = 0
+    n_emb = n_var = 0
     for s in all_strings(le):
         for pre, suf in CONTEXTS:
-            docs.append(pre + [dict(k="text", s=cps(s), e=1)] + suf)
+            docs.append((pre + [dict(k="text", s=cps(s), e=1)] + suf, DEFAULT_OPT))
             n_emb += 1
+        pre, suf = CONTEXTS[n_var % len(CONTEXTS)]          # and one variant call per string, contexts / options in turn
+        docs.append((pre + [dict(k="text", s=cps(s), e=1)] + suf, VARIANT_OPTS[n_var % len(VARIANT_OPTS)]))
+        n_var += 1
+        n_emb += 1
     chk.notes["embedded_exhaustive"] = dict(max_len=le, contexts=len(CONTEXTS), records=n_emb,
                                             note="records outside the side conditions are skipped by TLC (SideOK)")
 
     # ---- random documents from trees of nested / overlapping tags with escaped leaves -----------
     n_rand = 2000 if light else chk.pick(6000, 60000)
     for _ in range(n_rand):
-        docs.append(random_doc(rng))
+        docs.append((random_doc(rng), rand_opt(rng)))
     chk.notes["random_documents"] = n_rand
+
+    # ---- hand-listed boundary documents, each under the default call and every variant call ----------
+    bdocs = boundary_docs(rng, chk.pick([300, 1200], [300, 1200, 2500]))
+    for toks in bdocs:
+        for opt in [DEFAULT_OPT] + VARIANT_OPTS:
+            docs.append((toks, opt))
+    chk.notes["boundary_documents"] = dict(documents=len(bdocs), calls_each=1 + len(VARIANT_OPTS))
 
     # TLC judges batch k while Rich is driven for batch k+1 (one TLC batch in flight)
     pool = ThreadPoolExecutor(1)
@@ -460,16 +766,18 @@ def run(chk: Check):
 
     BATCH = 60000
     maxlen_seen = 0
+    opt_count = chk.notes.setdefault("calls_by_option", {})
     lap("generate")
     for off in range(0, len(docs), BATCH):
         recs, keys = [], []
-        for toks in docs[off:off + BATCH]:
-            rec, markup = doc_record(toks, env)
+        for toks, opt in docs[off:off + BATCH]:
+            rec, markup = doc_record(toks, env, opt)
             maxlen_seen = max(maxlen_seen, len(markup))
-            key = dict(kind="doc", toks=toks, markup=markup)
+            key = dict(kind="doc", toks=toks, markup=markup, opt=opt)
             recs.append(rec)
             keys.append(key)
-            chk.case(markup, any(t["k"] != "text" for t in toks) and any(t["k"] == "text" for t in toks))
+            opt_count[rec["opt"]] = opt_count.get(rec["opt"], 0) + 1
+            chk.case(markup + "\x00" + rec["opt"], any(t["k"] != "text" for t in toks) and any(t["k"] == "text" for t in toks))
         if off == 0:
             chk.sample(dict(markup=keys[0]["markup"], observed=dict(err=recs[0]["err"], plain=recs[0]["plain"], sty=recs[0]["sty"])))
             chk.sample(dict(markup=keys[-1]["markup"], toks=keys[-1]["toks"],
@@ -483,14 +791,33 @@ def run(chk: Check):
     n_raw = 0
     recs, keys = [], []
     BATCH = chk.pick(70000, 250000)
-    for s in all_strings(L):
-        recs.append(str_record(s, env))
-        keys.append(dict(kind="str", s=s))
-        chk.case(s, "[" in s)
-        n_raw += 1
+    def add_str(s, opt):
+        nonlocal recs, keys
+        rec = str_record(s, env, opt)
+        recs.append(rec)
+        keys.append(dict(kind="str", s=s, opt=opt))
+        opt_count[rec["opt"]] = opt_count.get(rec["opt"], 0) + 1
+        chk.case(s + "\x00" + rec["opt"], "[" in s)
         if len(recs) >= BATCH:
             submit(recs, keys, "M3-str")
             recs, keys = [], []
+
+    # hand-listed boundary strings under every call; random longer strings; all strings up to L - 1 under a variant call
+    for s in BOUNDARY_STRINGS:
+        for opt in [DEFAULT_OPT] + VARIANT_OPTS:
+            add_str(s, opt)
+    n_rr = 1000 if light else chk.pick(4000, 40000)
+    for _ in range(n_rr):
+        add_str(random_raw(rng), rand_opt(rng))
+    n_var = 0
+    for s in all_strings(L - 1):
+        add_str(s, VARIANT_OPTS[n_var % len(VARIANT_OPTS)])
+        n_var += 1
+    chk.notes["raw_strings_beyond_the_bound"] = dict(hand_listed=len(BOUNDARY_STRINGS), calls_each=1 + len(VARIANT_OPTS), random=n_rr,
+                                                     variant_calls_all_strings_up_to=L - 1, variant_records=n_var)
+    for s in all_strings(L):
+        add_str(s, DEFAULT_OPT)
+        n_raw += 1
     if recs:
         chk.sample(dict(s=keys[-1]["s"], escape="".join(map(chr, recs[-1]["esc"])),
                         observed=dict(err=recs[-1]["err"], plain=recs[-1]["plain"])))
@@ -507,20 +834,37 @@ def run(chk: Check):
 
 
 def _report(chk, env, rejected, counters, minimise_ok):
+    """every rejection is reported.  Its signature names the options of the call only when the same clause is not
+    also rejected by a call with fewer options (the plain rich.markup.render(emoji=False) call has none)."""
     chk.notes["verdicts"] = dict(counters)
-    rejected.sort(key=lambda x: (x[0], x[1]))
+    rejected.sort(key=lambda x: (x[0], x[1], x[4]))
+    opts_of = {}
+    for size, bsig, part, key, opt in rejected:
+        opts_of.setdefault(bsig, set()).add(opt)
+
+    def signature(bsig, opt):
+        bits = set(opt.split("+")) if opt else set()
+        best = min((o for o in opts_of[bsig] if (set(o.split("+")) if o else set()) <= bits), key=lambda o: (o.count("+") if o else -1, o))
+        return bsig + (" opt=" + best if best else "")
     first = {}
-    for size, sig, part, key in rejected:
+    for size, bsig, part, key, opt in rejected:
+        sig = signature(bsig, opt)
         if sig not in first:
-            first[sig] = (part, key)
-    for sig, (part, key) in first.items():
+            first[sig] = (part, key, bsig)
+    n_min = 0
+    for sig, (part, key, bsig) in first.items():
         if minimise_ok and key["kind"] == "doc" and len(key["toks"]) > 4:
-            small = minimise(chk, env, key["toks"], sig)
-            key = dict(kind="doc", toks=small, markup=emit(small, env))
-            first[sig] = (part, key)
+            n_min += 1
+            if n_min > 8:           # the first signatures get a minimal witness; the others keep their smallest rejected case
+                continue
+            opt = key.get("opt") or DEFAULT_OPT
+            small = minimise(chk, env, key["toks"], bsig, opt)
+            key = dict(kind="doc", toks=small, markup=emit(small, env), opt=opt)
+            first[sig] = (part, key, bsig)
     chk.notes["rejections_by_signature"] = {}
-    for size, sig, part, key in rejected:
-        p, k = first[sig]
+    for size, bsig, part, key, opt in rejected:
+        sig = signature(bsig, opt)
+        p, k, _ = first[sig]
         wit = k.get("markup", k.get("s"))
         chk.notes["rejections_by_signature"].setdefault(sig, dict(n=0, minimal_witness=wit))["n"] += 1
-        chk.reject(sig, "%s; witness %r" % (p, wit), k)
+        chk.reject(sig, "%s; witness %r; call %s" % (p, wit, k.get("opt") or DEFAULT_OPT), k)
